@@ -1,6 +1,7 @@
 import Qentem.Model.Value
 import Qentem.Model.Group
 import Qentem.Model.ValueOps
+import Qentem.Model.ValueLedger
 import Qentem.Driver.Proto
 /-!
 Driver for the Value / GroupBy model (C12, C18).
@@ -207,6 +208,8 @@ def parseOp (toks : List String) : Option Op :=
   | ["rmi", l, i, _] => do some (Op.removeIdx (← parseLoc l) (← i.toNat?))
   | ["rst", l] => do some (Op.reset (← parseLoc l))
   | ["cmp", l] => do some (Op.compress (← parseLoc l))
+  | ["rsv", l, k, n] => do some (Op.reserve (← parseLoc l) (← k.toNat?) (← n.toNat?))
+  | ["clr", l] => do some (Op.clear (← parseLoc l))
   | ["grp", d, s, k] => do some (Op.groupBy (← d.toNat?) (← parseLoc s) (← parseUnits k))
   | _ => none
 
@@ -253,12 +256,90 @@ def runSpec (ops : List Op) : String :=
     | none => "no-source"
   | _ => "bad-op"
 
+/-! ### allocation ledger (C16): `valled <op> ; <op> ; ...` -/
+
+open Qentem.ValueLedger in
+def parseLSel (t : String) : Option LSel :=
+  match t.toList with
+  | 'k' :: v :: rest =>
+    (parseUnits (String.ofList rest)).map (fun k => LSel.key k (if v == 'c' then KV.moved else if v == 'd' then KV.constCopy else KV.plain))
+  | 'i' :: _ :: rest => (String.ofList rest).toNat?.map LSel.idx
+  | _ => none
+
+open Qentem.ValueLedger in
+def parseLLoc (t : String) : Option LLoc :=
+  match t.splitOn "/" with
+  | r :: sels =>
+    match r.toNat?, sels.mapM parseLSel with
+    | some r, some p => some ⟨r, p⟩
+    | _, _ => none
+  | [] => none
+
+open Qentem.ValueLedger in
+def parseSLoc (t : String) : Option SLoc := (parseLoc t).map (fun l => ⟨l.root, l.path⟩)
+
+/-- named-`String` temporaries of the harness for a string payload (`b`, `c`, `d` forms). -/
+def payloadTmp (t : String) : Nat :=
+  match t.toList with
+  | 's' :: v :: _ => if v == 'b' || v == 'c' || v == 'd' then 1 else 0
+  | _ => 0
+
+open Qentem.ValueLedger in
+def parseLOp (toks : List String) : Option LOp :=
+  match toks with
+  | ["set", l, "z"] => (parseLLoc l).map LOp.touch
+  | ["set", l, p] => do some (LOp.assign (← parseLLoc l) (← parsePayload p) (payloadTmp p))
+  | ["typ", l, k] => do some (LOp.setType (← parseLLoc l) (← k.toNat?))
+  | ["cpy", l, s, _] => do some (LOp.copy (← parseLLoc l) (← parseSLoc s))
+  | ["mov", l, s, _] => do some (LOp.move (← parseLLoc l) (← parseSLoc s))
+  | ["obj", l, s, _] => do some (LOp.assignObj (← parseLLoc l) (← parseSLoc s))
+  | ["arr", l, s, _] => do some (LOp.assignArr (← parseLLoc l) (← parseSLoc s))
+  | ["ptr", l, r] => do some (LOp.setPtr (← parseLLoc l) (← parseRootOpt r))
+  | ["app", l, p] => do some (LOp.append (← parseLLoc l) (← parsePayload p) (payloadTmp p))
+  | ["apv", l, s, "a"] => do some (LOp.appendMove (← parseLLoc l) (← parseSLoc s))
+  | ["apv", l, s, "b"] => do some (LOp.appendCopy (← parseLLoc l) (← parseSLoc s))
+  | ["apo", l, s, _] => do some (LOp.appendObj (← parseLLoc l) (← parseSLoc s))
+  | ["apa", l, s, _] => do some (LOp.appendArr (← parseLLoc l) (← parseSLoc s))
+  | ["adp", l, r] => do some (LOp.addPtr (← parseLLoc l) (← parseRootOpt r))
+  | ["ins", l, k, p] => do some (LOp.insert (← parseLLoc l) (← parseUnits k) (← parsePayload p))
+  | ["inm", l, k, s] => do some (LOp.insertMove (← parseLLoc l) (← parseUnits k) (← parseSLoc s))
+  | ["mrg", l, s, "a"] => do some (LOp.mergeMove (← parseLLoc l) (← parseSLoc s))
+  | ["mrg", l, s, "b"] => do some (LOp.mergeCopy (← parseLLoc l) (← parseSLoc s))
+  | ["rem", l, k, v] => do some (LOp.remove (← parseLLoc l) (← parseUnits k) (if v == "b" then 1 else 0))
+  | ["rmi", l, i, _] => do some (LOp.removeIdx (← parseLLoc l) (← i.toNat?))
+  | ["rst", l] => do some (LOp.reset (← parseLLoc l))
+  | ["cmp", l] => do some (LOp.compress (← parseLLoc l))
+  | ["rsv", l, k, n] => do some (LOp.reserve (← parseLLoc l) (← k.toNat?) (← n.toNat?))
+  | ["clr", l] => do some (LOp.clear (← parseLLoc l))
+  | _ => none
+
+/-- `<allocs>/<frees> bal=<Ledger.run verdict> doc=<the erased final forest equals the value model's>` -/
+def runLedger (lops : List Qentem.ValueLedger.LOp) (ops : List Op) : String :=
+  let init : Qentem.ValueLedger.LEnv := [.undef, .undef, .undef, .undef]
+  let r := Qentem.ValueLedger.runL lops init 1
+  let d := Qentem.ValueLedger.destroyL r.1 r.2.2
+  let evs := r.2.1 ++ d.2.1
+  let allocs := (evs.filter (fun e => match e with | Qentem.Ledger.Ev.alloc _ _ => true | _ => false)).length
+  let frees := (evs.filter (fun e => match e with | Qentem.Ledger.Ev.free _ => true | _ => false)).length
+  let bal := match Qentem.Ledger.run evs [] with
+    | some [] => "1"
+    | _ => "0"
+  let erased : Env := Qentem.ValueLedger.eraseItems r.1
+  let model := runFinal fmtReal ops initEnv
+  let same := "#".intercalate (erased.map (deepDump erased)) == "#".intercalate (model.map (deepDump model))
+  toString allocs ++ "/" ++ toString frees ++ " bal=" ++ bal ++ " doc=" ++ showBool same
+
 /-- `valview <deep-dump-free form>` is not needed: the harness prints the same view itself. -/
 def handle (op : String) (args : List String) : String :=
   let (sel, args) : List Nat × List String :=
     match args with
     | a :: rest => if a.startsWith "@" then ((a.toList.drop 1).map (fun c => c.toNat - 48), rest) else ([], args)
     | [] => ([], [])
+  if op == "valled" then
+    match (splitOps args).mapM parseLOp, (splitOps args).mapM parseOp with
+    | some lops, some ops => runLedger lops ops
+    | _, _ => "bad-op"
+  else
   match (splitOps args).mapM parseOp with
   | none => "bad-op"
   | some ops =>
